@@ -634,6 +634,9 @@ func (s *Sim) dial(ctx context.Context, role, srcIP, addr string, connectTimeout
 		defer t.Stop()
 		to = t.C
 	}
+	// the kernel gives up on an unanswered SYN by itself (Linux: ~127 s)
+	osT := time.NewTimer(127 * time.Second)
+	defer osT.Stop()
 	select {
 	case r := <-done:
 		rec.Outcome = "ok"
@@ -653,5 +656,9 @@ func (s *Sim) dial(ctx context.Context, role, srcIP, addr string, connectTimeout
 		rec.Outcome = "timeout"
 		abandoned.Store(true)
 		return nil, dialErr(timeoutError{})
+	case <-osT.C:
+		rec.Outcome = "timeout"
+		abandoned.Store(true)
+		return nil, dialErr(os.NewSyscallError("connect", syscall.ETIMEDOUT))
 	}
 }
